@@ -456,7 +456,7 @@ def check_c04(tier: str, replay_path: Optional[str]) -> int:
     compu_stats.update(_table_entry_probe(v, "C04"))
     s0 = stats["c"]
     if s0["accepted"] == 0 or s0["rejected_lib"] == 0 or s0["wrong_type_cases"] == 0:
-        raise tlc.MachineryError(f"vacuity: {s0}")
+        v.vacuous(f"vacuity: {s0}")
     ncases = sum(len(r["cases"]) for r in recs)
     cov = {"states": res.distinct, "transitions": res.generated, "traces_validated_against_impl": s0["cases"],
            "evaluations": s0["cases"], "distinct_nontrivial": ncases,
@@ -547,7 +547,7 @@ def check(prop: str, tier: str, replay_path: Optional[str]) -> int:
     ncases = sum(len(r["cases"]) for r in recs)
     s0 = stats["c"]
     if s0["real_ok"] == 0 or s0["overlaps"] == 0 or s0["truncated_flags"] == 0 or s0["static_lengths"] == 0:
-        raise tlc.MachineryError(f"vacuity: {s0}")
+        v.vacuous(f"vacuity: {s0}")
     cov = {"states": res.distinct, "transitions": res.generated, "traces_validated_against_impl": s0["cases"],
            "evaluations": s0["encodes"] + s0["decodes"] + s0["prefix_decodes"] + s0["mutation_decodes"] + s0["reencodes"],
            "distinct_nontrivial": ncases,
